@@ -176,14 +176,15 @@ impl MulAssign for Field255 {
 impl Div for Field255 {
     type Output = Field255;
 
-    fn div(self, _rhs: Self) -> Self::Output {
-        unimplemented!("Div is not implemented for Field255 because it's not needed yet")
+    #[allow(clippy::suspicious_arithmetic_impl)]
+    fn div(self, rhs: Self) -> Self::Output {
+        self * rhs.inv()
     }
 }
 
 impl DivAssign for Field255 {
-    fn div_assign(&mut self, _rhs: Self) {
-        unimplemented!("DivAssign is not implemented for Field255 because it's not needed yet")
+    fn div_assign(&mut self, rhs: Self) {
+        *self = *self / rhs;
     }
 }
 
@@ -295,7 +296,20 @@ impl FieldElement for Field255 {
     const ENCODED_SIZE: usize = 32;
 
     fn inv(&self) -> Self {
-        unimplemented!("Field255::inv() is not implemented because it's not needed yet")
+        // Fermat's little theorem: self^(p - 2). The exponent is public, so the sequence of
+        // squarings and multiplications does not depend on the element being inverted.
+        let mut exponent = MODULUS_LITTLE_ENDIAN;
+        exponent[0] -= 2;
+        let mut result = Self::one();
+        for byte in exponent.iter().rev() {
+            for bit in (0..8).rev() {
+                result *= result;
+                if (byte >> bit) & 1 == 1 {
+                    result *= *self;
+                }
+            }
+        }
+        result
     }
 
     fn try_from_random(bytes: &[u8]) -> Result<Self, FieldError> {
